@@ -115,6 +115,8 @@ Verdict(e) ==
       fixpoint == IF e.s1.kind = "error" THEN "" ELSE IF e.fix THEN ""
                   ELSE IF Boolify(want) # want THEN "dev:F-C02h"      \* true -> True, false -> (dropped) on the next cycle
                   ELSE IF HasDriftingNote(want) THEN "dev:F-C02d"
+                  \* F-C02f: column comments are lost by the first round trip, so the second rendering lacks them
+                  ELSE IF \E t \in DOMAIN m.tables : \E k \in DOMAIN m.tables[t].cols : m.tables[t].cols[k].comment # "" THEN "dev:F-C02f"
                   ELSE IF BlankDriftingProps(want, want) # want THEN "dev:F-C15a"
                   ELSE IF BlankDriftingItems(want, want) # want THEN "dev:F-C02j"
                   ELSE "second rendering differs"
